@@ -127,6 +127,15 @@ fn run_case<G: AffineRepr>(env: &Env<G>, c: &Case) -> CaseOut {
     }
     batches.push(("all-valid-reversed".into(), pool.iter().rev().collect()));
     batches.push(("duplicates-of-one-valid".into(), vec![&pool[3], &pool[3], &pool[3]]));
+    if c.big {
+        // large batches: 40 valid members in pool order repeated; the same with one invalid member inside
+        let big: Vec<&Inst<G>> = (0..40).map(|i| &pool[i % pool.len()]).collect();
+        batches.push(("large-all-valid[40]".into(), big.clone()));
+        let mut b2 = big.clone();
+        let pos = (c.seed % 40) as usize;
+        b2[pos] = &invalid[(c.seed % invalid.len() as u64) as usize];
+        batches.push((format!("large-one-invalid@{}", pos), b2));
+    }
     batches.push(("empty".into(), vec![]));
     // one invalid member at every position
     for pos in 0..pool.len().min(7) {
@@ -221,7 +230,7 @@ fn run_case<G: AffineRepr>(env: &Env<G>, c: &Case) -> CaseOut {
         }
         let items: Vec<(&Program, &[G], &R1CSProof<G>)> = members.iter().map(|m| (&m.prog, &m.vs[..], &m.proof)).collect();
         let (rb, rng) = batch_rng::<G>(env, &items, &env.bp, c.seed ^ (bi as u64) << 3);
-        let class = name.split('[').next().unwrap_or("").to_string();
+        let class = name.split(|ch| ch == '[' || ch == '@').next().unwrap_or("").to_string();
         o.count(&format!("{}: conjunction={} batch={}", class, if all_ok { "accept" } else { "reject" }, if rb.is_ok() { "accept" } else { "reject" }), 1);
         o.sig(format!("{}|{}|size={}|{}", env.curve, name, members.len(), members.iter().map(|m| m.mirror.ipp.L.len().to_string()).collect::<Vec<_>>().join(",")));
         let detail = || json!({"batch": name, "members": members.iter().map(|m| m.desc.clone()).collect::<Vec<_>>(), "individual": singles, "batch_verdict": res_name(&rb), "programs": members.iter().map(|m| m.prog.clone()).collect::<Vec<_>>()});
